@@ -13,7 +13,7 @@ RULE = ('Cases: arbitrary sample-by-k-mer tables (1..12 samples x 1..60 rows; ro
         'codes and gaps, one ambiguous among constant, two alleles with gaps; forced rows: all-equal, all-equal-but-one-gap, '
         'only-ambiguous, one-unambiguous-rest-ambiguous, every presence count 1..n) built through `ska build` and verified '
         'by read-out.  For each table the full grid 4 filters x filter-ambig-as-missing x ambig-mask x no-gap-only-sites is '
-        'run at min-freq values j/n (j=0..n) and 0.9/0.5/0.7/0.3; the column multiset of `ska align` is compared with the '
+        'run at min-freq values j/n (j=0..n), four-digit decimals just below and above every j/n, and 0.9/0.5/0.7/0.3/0.6/0.35; the column multiset of `ska align` is compared with the '
         'row predicate evaluated in exact rational arithmetic, and stricter settings must give sub-multisets of laxer ones.  A quarter of the files first pass through `ska weed --filter-ambig-as-missing` with a one-sample threshold (stored files with a history).  '
         'Non-trivial: the table has rows that pass and rows that fail under the setting; distinct = distinct (table, setting).')
 ASSUMPTIONS = ['min-freq is passed as a short decimal string; the oracle uses the exact rational of that string',
@@ -107,6 +107,11 @@ def settings_for(rng, ns, full, forced_mf=None):
         return [(filt, forced_mf, fam, False, False) for filt in ('no-filter', 'no-const') for fam in (False, True)]
     freqs = [('%.4f' % (j / ns)).rstrip('0').rstrip('.') if (j * 10000) % ns == 0 else None for j in range(ns + 1)]
     freqs = [f for f in freqs if f is not None] + ['0.9', '0.5', '0.7', '0.3', '0.6', '0.35']
+    # four-digit decimals just below and just above every j/n that is not itself a short decimal (1/3 -> 0.3333, 0.3334)
+    for j in range(1, ns):
+        if (j * 10000) % ns:
+            lo = (j * 10000) // ns
+            freqs += ['0.%04d' % lo, '0.%04d' % (lo + 1)]
     out = []
     for filt in FILTERS:
         for fam in (False, True):
